@@ -98,6 +98,25 @@ def enumerate_cases(tier):
                     out.append({"op": "root", "a": {"mag": neg, "terms": terms}, "n": n})
             for op in ("neg", "pos", "abs"):
                 out.append({"op": op, "a": {"mag": {"t": t, "v": -3 if t == "int" else (-2.5 if t == "float" else "-1.25")}, "terms": terms}, "n": 1})
+    # incommensurable operands whose magnitudes are ints of hundreds or thousands of digits
+    # (beyond 4300 digits Python refuses to render them, which an error message must survive)
+    sec = [["", "second", 1]]
+    for digits in (400, 4299, 4300, 5000):
+        for op in ("add", "sub", "lt", "le", "gt", "ge", "eq", "in_unit"):
+            big, one = {"mag": {"t": "pow10", "v": digits}, "terms": units[0]}, {"kind": "q", "mag": {"t": "int", "v": 1}, "terms": sec}
+            out.append({"op": op, "a": big, "b": one})
+            out.append({"op": op, "a": {"mag": {"t": "int", "v": 1}, "terms": sec}, "b": dict(big, kind="q")})
+            out.append({"op": op, "a": dict(big, mag={"t": "pow10", "v": -digits}), "b": dict(big, kind="q", terms=[["kilo", "gram", 1]])})
+    # incommensurable operands one of which carries a prefix beyond the range of a float (prefixes
+    # of both bases multiplied up: 2**480 x 10**216): prefix arithmetic is exponent arithmetic, and
+    # refusing the operation must not depend on being able to compute that prefix's value
+    extreme = [["yobi", "bit", 3], ["yobi", "byte", 3], ["yotta", "meter", 3], ["yotta", "gram", 3], ["yotta", "second", 3]]
+    tiny = [["yocto", "meter", 3], ["yocto", "gram", 3], ["yocto", "second", 3], ["yobi", "bit", -3], ["yobi", "byte", -3]]
+    for terms in (extreme, tiny):
+        for op in ("add", "sub", "lt", "le", "gt", "ge", "eq", "in_unit"):
+            for mag in ({"t": "int", "v": 1}, {"t": "float", "v": 2.5}, {"t": "dec", "v": "1.25"}):
+                out.append({"op": op, "a": {"mag": mag, "terms": terms}, "b": {"kind": "q", "mag": {"t": "int", "v": 1}, "terms": sec}})
+                out.append({"op": op, "a": {"mag": {"t": "int", "v": 1}, "terms": sec}, "b": {"kind": "q", "mag": mag, "terms": terms}})
     return out
 
 
@@ -154,7 +173,7 @@ def run_case(case) -> core.Outcome:
 
     def check_result(r, want_dim, tag, dec_expected):
         if not isinstance(r, m.Quantity):
-            out.fail(f"C03:{tag}:not-a-quantity", f"{tag} returned {type(r).__name__}: {r!r}")
+            out.fail(f"C03:{tag}:not-a-quantity", f"{tag} returned {type(r).__name__}: {convgen.show(r)}")
             return
         if tuple(r.unit.dimension.exponents) != tuple(want_dim):
             out.fail(f"C03:dimension:{tag}", f"{tag}: result dimension {r.unit.dimension.exponents} != {tuple(want_dim)} for {case}")
@@ -213,13 +232,13 @@ def run_case(case) -> core.Outcome:
                 r = abs(a)
                 check_result(r, da, "abs", dec)
                 if isinstance(r, m.Quantity) and r.magnitude < 0:
-                    out.fail("C03:abs:negative", f"abs({a!r}) = {r!r}")
+                    out.fail("C03:abs:negative", f"abs({convgen.show(a)}) = {convgen.show(r)}")
         except Exception as e:  # noqa
             mixed = _mixed_terms(c, ta)
-            out.fail(f"C03:{op}:raises:{type(e).__name__}@{core.innermost_frame(e)}" + (":mixed-base" if mixed else ""), f"{op} on {a!r} (n={case.get('n')}) raised {type(e).__name__}: {e}")
+            out.fail(f"C03:{op}:raises:{type(e).__name__}@{core.innermost_frame(e)}" + (":mixed-base" if mixed else ""), f"{op} on {convgen.show(a)} (n={case.get('n')}) raised {type(e).__name__}: {e}")
         if len(ta) > 1 or dec:
             out.nontrivial = f"{op}|{mtypes}|{da}|{case.get('n')}"
-            out.sample = {"op": op, "a": f"{ma!r} {convgen.terms_str(ta)}", "n": case.get("n")}
+            out.sample = {"op": op, "a": f"{convgen.show(ma)} {convgen.terms_str(ta)}", "n": case.get("n")}
         return out
 
     B = convgen.build(c, tb)
@@ -264,26 +283,26 @@ def run_case(case) -> core.Outcome:
             if not same_dim:
                 if op == "eq":
                     if raised is not None or r is not False:
-                        out.fail("C03:reject:eq", f"{a!r} == {b!r} across dimensions gave {r!r} / {raised!r}")
+                        out.fail("C03:reject:eq", f"{convgen.show(a)} == {convgen.show(b)} across dimensions gave {convgen.show(r)} / {raised!r}")
                 elif raised is None:
-                    out.fail(f"C03:reject:{op}", f"{op} across dimensions ({a!r}, {b!r}) returned {r!r} instead of raising")
+                    out.fail(f"C03:reject:{op}", f"{op} across dimensions ({convgen.show(a)}, {convgen.show(b)}) returned {convgen.show(r)} instead of raising")
             elif raised is None and op in ("add", "sub"):
                 if not isinstance(r, m.Quantity) or r.unit is not A:
-                    out.fail(f"C03:left-unit:{op}", f"{op}: result {r!r} does not carry the left operand's unit {A}")
+                    out.fail(f"C03:left-unit:{op}", f"{op}: result {convgen.show(r)} does not carry the left operand's unit {A}")
                 if isinstance(r, m.Quantity) and anydec and not isinstance(r.magnitude, Decimal):
                     out.fail(f"C03:decimal:{op}", f"{op}: an operand magnitude is Decimal but the result magnitude is {type(r.magnitude).__name__}")
             elif raised is None and op == "in_unit":
                 if not isinstance(r, m.Quantity) or r.unit is not B:
-                    out.fail("C03:in_unit:unit", f"in_unit result {r!r} does not carry the requested unit")
+                    out.fail("C03:in_unit:unit", f"in_unit result {convgen.show(r)} does not carry the requested unit")
             elif raised is None and op in ("lt", "le", "gt", "ge", "eq") and not isinstance(r, bool):
-                out.fail(f"C03:compare:not-bool:{op}", f"{op} returned {r!r}")
+                out.fail(f"C03:compare:not-bool:{op}", f"{op} returned {convgen.show(r)}")
     except (AssertionError, RecursionError) as e:
         out.classes.append(f"raised:{type(e).__name__}")  # planner escapes are C07's subject
     except Exception as e:  # noqa
-        out.fail(f"C03:{op}:raises:{type(e).__name__}@{core.innermost_frame(e)}", f"{op} on {a!r}, {b!r} raised {type(e).__name__}: {e}")
+        out.fail(f"C03:{op}:raises:{type(e).__name__}@{core.innermost_frame(e)}", f"{op} on {convgen.show(a)}, {convgen.show(b)} raised {type(e).__name__}: {e}")
     if kb != "q" or (anydec and not (dec and isinstance(mb, Decimal))) or len(ta) > 1 or len(tb) > 1:
         out.nontrivial = f"{op}|{kb}|{mtypes}|{type(mb).__name__}|{da}|{db}"
-        out.sample = {"op": op, "a": f"{ma!r} {convgen.terms_str(ta)}", "b_kind": kb, "b": f"{mb!r} {convgen.terms_str(tb)}"}
+        out.sample = {"op": op, "a": f"{convgen.show(ma)} {convgen.terms_str(ta)}", "b_kind": kb, "b": f"{convgen.show(mb)} {convgen.terms_str(tb)}"}
     return out
 
 
